@@ -296,6 +296,16 @@ void run(const Plan& p) {
   }
   s.q.initialize((size_t)std::max<int64_t>(1, std::min<int64_t>(p.get("cap", 1), 4)), *ex, consume);
   s.cap = s.q.capacity();
+  // history prefix: pretend the ring has already been cycled epoch0 times (slot
+  // versions near the 16-bit wrap); set-up only, before any use
+  uint64_t e0 = (uint64_t)std::max<int64_t>(0, p.get("epoch0", 0));
+  if (e0) {
+    s.q._queue._next_push_index.store(e0 * s.cap, std::memory_order_relaxed);
+    s.q._queue._next_pop_index.store(e0 * s.cap, std::memory_order_relaxed);
+    for (size_t i = 0; i < s.cap; i++) s.q._queue._slots.futex(i).set_version((uint16_t)(e0 << 1), std::memory_order_relaxed);
+    sim::drain();
+    probe("history_prefix");
+  }
   for (size_t i = 0; i < s.cap; i++) sim::hb_register(&s.q._queue._slots.value(i), sizeof(Item), "execq-slot");
   sim::watch(&s.q._events, sizeof(s.q._events), on_events, nullptr);
   sim::watch(&s.q._queue._next_push_index, sizeof(size_t), on_ticket, nullptr);
@@ -394,6 +404,8 @@ void gen(Rng& r, Plan& p, const GenParams& gp) {
   p.cfg["exec"] = exec;
   static const int caps[] = {1, 1, 2, 2, 3, 4};
   p.cfg["cap"] = caps[r.below(6)];
+  static const int64_t ep[] = {0, 0, 0, 0, 3, 32766, 32767, 65534, 65535};
+  p.cfg["epoch0"] = ep[r.below(9)];
   p.cfg["workers"] = (int64_t)r.range(1, 2);
   p.cfg["gcap"] = (int64_t)r.range(1, 2);
   p.cfg["finline"] = r.chance(1, 3);
